@@ -57,6 +57,8 @@ def plan(tier, seed):
         for ng in ngs:
             for omfloat in (True, False):
                 shards.append(("pipe", tier, gi, ng, omfloat))
+        if gi % 4 == 0:
+            shards.append(("pipe_nostart", tier, gi, 3, True))
     k = seed % len(shards)
     return shards[k:] + shards[:k]
 
@@ -107,7 +109,7 @@ def perturbed(grains):
     return out
 
 
-def write_inputs(wd, pars, peaks, start, gm, P):
+def write_inputs(wd, pars, peaks, start, gm, P, with_translation=True):
     p = P.parameters(**pars)
     p.saveparameters(os.path.join(wd, "g.par"))
     with open(os.path.join(wd, "p.flt"), "w") as fh:
@@ -115,12 +117,12 @@ def write_inputs(wd, pars, peaks, start, gm, P):
         order = (np.arange(len(peaks)) * 7919) % len(peaks) if np.gcd(7919, len(peaks)) == 1 else np.arange(len(peaks))
         for k in order:
             fh.write("%.4f  %.4f  %.4f  %.0f  %.4f  %.4f\n" % (peaks[k, 0], peaks[k, 1], peaks[k, 2], 10, 100.0, 1000.0))
-    gl = [gm.grain(u, translation=t) for u, t in start]
+    gl = [gm.grain(u, translation=(t if with_translation else None)) for u, t in start]
     gm.write_grain_file(os.path.join(wd, "start.ubi"), gl)
     return order
 
 
-def run_case(sh, mods, pars, ng, omfloat, case, passes=3):
+def run_case(sh, mods, pars, ng, omfloat, case, passes=3, with_translation=True):
     tr, gm, P, cf_mod, makemap_mod = mods
     wd = os.path.join(WORK, "c09_%d" % os.getpid())
     shutil.rmtree(wd, ignore_errors=True)
@@ -129,7 +131,12 @@ def run_case(sh, mods, pars, ng, omfloat, case, passes=3):
         truth = true_grains(ng, seed_of())
         peaks = simulate(tr, pars, truth)
         start = perturbed(truth)
-        order = write_inputs(wd, pars, peaks, start, gm, P)
+        if not with_translation:
+            # an indexer-style ubi file: no positions known; grains closer to the axis so that the assignment can start
+            truth = [(u, t * 0.3) for u, t in truth]
+            peaks = simulate(tr, pars, truth)
+            start = [(u, np.zeros(3)) for u, t in perturbed(truth)]
+        order = write_inputs(wd, pars, peaks, start, gm, P, with_translation)
         peaks = peaks[order]
         ubifile = os.path.join(wd, "start.ubi")
         cwd = os.getcwd()
@@ -146,6 +153,15 @@ def run_case(sh, mods, pars, ng, omfloat, case, passes=3):
                 if it == 0:
                     first_flt = cf_mod.columnfile(os.path.join(wd, "p.flt.new"))
                     start_correct = float((first_flt.labels.astype(int) == peaks[:, 3].astype(int)).mean())
+                    # already the first pass must move every grain towards ITS OWN position (a loose bound, 20x the measured error)
+                    g1 = gm.read_grain_file(newubi)
+                    for k in range(min(ng, len(g1))):
+                        e1 = float(np.abs(g1[k].translation - truth[k][1]).max())
+                        sh.counters["max_translation_err_after_first_pass_nm"] = max(sh.counters.get("max_translation_err_after_first_pass_nm", 0), int(e1 * 1e3))
+                        if e1 > 40.0:
+                            sh.violation("refinement:first-pass-leaves-grain-far-from-its-position", dict(case, grain=k),
+                                         {"error_um": e1, "translation": g1[k].translation, "truth": truth[k][1]})
+                            break
         finally:
             os.chdir(cwd)
         # ---- read back what was saved
@@ -211,12 +227,12 @@ def _mods():
 
 
 def run_shard(desc):
-    _, tier, gi, ng, omfloat = desc
+    kind, tier, gi, ng, omfloat = desc
     sh = Shard()
     pars = geometries(tier)[gi]
-    case = {"tier": tier, "geometry": gi, "ngrains": ng, "omega_float": omfloat, "seed": seed_of(),
+    case = {"tier": tier, "geometry": gi, "ngrains": ng, "omega_float": omfloat, "seed": seed_of(), "start_has_translations": kind == "pipe",
             "pars": {k: v for k, v in pars.items() if not k.startswith("cell")}}
-    info = run_case(sh, _mods(), pars, ng, omfloat, case)
+    info = run_case(sh, _mods(), pars, ng, omfloat, case, with_translation=(kind == "pipe"))
     sh.sample(dict(case, **{k: v for k, v in (info or {}).items()}), limit=1)
     return sh
 
@@ -225,5 +241,5 @@ def replay(case):
     os.environ["VERIF_SEED"] = str(case.get("seed", 0))
     sh = Shard()
     pars = geometries(case["tier"])[case["geometry"]]
-    run_case(sh, _mods(), pars, case["ngrains"], case["omega_float"], case)
+    run_case(sh, _mods(), pars, case["ngrains"], case["omega_float"], case, with_translation=case.get("start_has_translations", True))
     return (not sh.violations), {"violations": sh.violations[:3]}
